@@ -49,7 +49,7 @@ CLAIMED = {
    text="For generated projects incl. erroneous sources and four histories, clean must return Ok, run no command, create/modify nothing, delete only outputs and temp targets (never a .txtpp path), and after a successful build restore the pre-build tree exactly.",
    note="Inputs are closed under dependency (whole tree or all sources named), as Mode::Clean documents that dependencies are not followed."),
  "C08": dict(level="fault_enumeration", design="5 C08, 4.5",
-   technique="property-based testing, metamorphic oracle over constructed leftover states (crash points as byte prefixes, invalid UTF-8, stale, empty) of every generated path",
+   technique="property-based testing, metamorphic oracle over constructed leftover states (crash points as byte prefixes, invalid UTF-8, stale, empty, same-length one-byte changes) of every generated path",
    text="Leftover states of previous or interrupted runs are enumerated by construction at byte granularity for every generated path; the build (normal and --needed) must give the verdict and bytes of a build from the tree without generated files, and building twice must equal building once. Found two genuine defects (non-UTF-8 leftovers), both fixed.",
    note="Interrupted runs are represented by their leftover regular files; kernel-level partial states are out of scope."),
  "C09": dict(level="exploration", design="5 C09",
